@@ -13,6 +13,7 @@
 //!          distinct state); with --probe every buffer operation of the model is also tried in every state;
 //!          --variant v executes the model's shape classes 1..3 as the concrete shapes 10 v + class
 //!   random --seed S --n N --len L --out trace.ndjson
+//!   delays --out trace.ndjson      scripted histories with large delays (30 / 90 days .. u32::MAX)
 use anchor_lang::{
     prelude::Pubkey,
     solana_program::{instruction::Instruction, program_error::ProgramError, system_program},
@@ -79,6 +80,8 @@ struct World {
     ghost: Vec<(Ghost, u8)>,
     now: i64,
     names: HashMap<Pubkey, String>,
+    /// delays beyond 2^31 - 1: logged as decimal strings
+    big: bool,
 }
 
 /// the instruction shapes: id = 10 * variant + class (class 1: the wallet signs, 2: nobody signs,
@@ -167,6 +170,7 @@ impl World {
             ghost: vec![(Ghost::None, 0); nb],
             now: T0,
             names,
+            big: false,
         }
     }
 
@@ -218,6 +222,9 @@ impl World {
             }
         }
         let delay = aligned::<TimelockConfig>(&self.config.data()).delay();
+        if self.big {
+            return json!({"buf": bufs, "delay": delay.to_string(), "now": self.now, "holds": self.holds()});
+        }
         json!({"buf": bufs, "delay": delay, "now": self.now, "holds": self.holds()})
     }
 
@@ -433,6 +440,58 @@ fn exec_and_log(w: &mut World, c: &Call, reset: bool, sink: &mut Sink) {
                      "pre": pre, "post": post, "buffered": buffered, "delivered": delivered, "wallet": "W"}));
 }
 
+/// increase_delay on a configuration whose delay does not fit TLC's integers
+fn big_increase(w: &mut World, delta: u32, reset: bool, sink: &mut Sink) {
+    let cur = || aligned::<TimelockConfig>(&w.config.data()).delay();
+    let before = cur();
+    let pre = w.project();
+    let snap = w.snapshot();
+    let r = guarded(|| w.increase_delay(delta));
+    let (ok, panic, err) = match r {
+        Ok(Ok(())) => (true, false, String::new()),
+        Ok(Err(e)) => (false, false, e),
+        Err(()) => (false, true, "panic".into()),
+    };
+    if !ok {
+        w.restore(&snap);
+    }
+    let after = aligned::<TimelockConfig>(&w.config.data()).delay();
+    let post = w.project();
+    let none_ix = json!({"prog": "", "metas": [], "data": []});
+    sink.emit(json!({"op": "increase_delay_big", "b": 0, "x": 0, "xs": delta.to_string(), "ok": ok, "panic": panic, "err": err, "reset": reset,
+                     "pre": pre, "post": post, "buffered": none_ix, "delivered": none_ix, "wallet": "W",
+                     "cmp": (after as i64 - before as i64).signum(), "fits": delta != 0 && before.checked_add(delta).is_some(),
+                     "exact": before as u64 + delta as u64 == after as u64}));
+}
+
+const DAY: i64 = 86_400;
+
+/// large delays: around 30 days, 90 days, near 2^31 (all steps judged by TLC on integers) and up to
+/// u32::MAX (judged through cmp); increments 0, 1, one day, and ones that overflow u32
+fn delays(args: &Args) -> i32 {
+    let mut sink = Sink::create(&args.str("out", "c36-delays.ndjson"));
+    for d0 in [30 * DAY - 1, 30 * DAY, 30 * DAY + 1, 31 * DAY, 90 * DAY, 90 * DAY + 7, 1_000_000_000] {
+        let mut w = World::new(1, 1, d0 as u32);
+        let script: Vec<(&str, usize, i64)> = vec![
+            ("create", 1, 11), ("approve", 1, 1), ("increase_delay", 0, 0), ("increase_delay", 0, 1), ("tick", 0, d0), ("execute", 1, 0),
+            ("increase_delay", 0, DAY), ("tick", 0, 1), ("execute", 1, 0), ("tick", 0, DAY), ("execute", 1, 0),
+            ("increase_delay", 0, 1), ("create", 1, 1), ("approve", 1, 1), ("tick", 0, d0 + DAY + 1), ("execute", 1, 0), ("tick", 0, 1), ("execute", 1, 0),
+        ];
+        for (k, (op, b, x)) in script.iter().enumerate() {
+            exec_and_log(&mut w, &Call { op: op.to_string(), b: *b, x: *x }, k == 0, &mut sink);
+        }
+    }
+    for d0 in [u32::MAX, u32::MAX - 10, u32::MAX - 86_399, u32::MAX - 86_400, 3_000_000_000, (1u32 << 31) + 5] {
+        let mut w = World::new(1, 1, d0);
+        w.big = true;
+        for (k, delta) in [0u32, 1, 86_400, 1, 4_000_000_000, u32::MAX, 10, 86_400].iter().enumerate() {
+            big_increase(&mut w, *delta, k == 0, &mut sink);
+        }
+    }
+    eprintln!("events {}", sink.finish());
+    0
+}
+
 fn call_from_json(v: &Value) -> Call {
     Call { op: v["op"].as_str().unwrap().to_string(), b: v["b"].as_u64().unwrap() as usize, x: v["x"].as_i64().unwrap() }
 }
@@ -504,7 +563,9 @@ fn random(args: &Args) -> i32 {
     for _ in 0..runs {
         let nb = rng.range(1, 3) as usize;
         let na = rng.range(1, 3) as usize;
-        let mut w = World::new(nb, na, rng.range(0, 5) as u32);
+        let d0 = if rng.chance(1, 3) { *rng.pick(&[30 * DAY - 1, 30 * DAY + 1, 45 * DAY, 90 * DAY, 365 * DAY]) } else { rng.range(0, 5) };
+        let long = d0 > 5;
+        let mut w = World::new(nb, na, d0 as u32);
         for k in 0..len {
             let b = rng.range(1, nb as i64) as usize;
             let a = rng.range(1, na as i64);
@@ -513,10 +574,10 @@ fn random(args: &Args) -> i32 {
                 3..=5 => Call { op: "approve".into(), b, x: a },
                 6 => Call { op: "cancel".into(), b, x: 0 },
                 7..=9 => Call { op: "execute".into(), b, x: 0 },
-                10 => Call { op: "increase_delay".into(), b: 0, x: rng.range(0, 3) },
+                10 => Call { op: "increase_delay".into(), b: 0, x: if long { *rng.pick(&[0i64, 1, DAY, 30 * DAY]) } else { rng.range(0, 3) } },
                 11 => Call { op: "revoke".into(), b: 0, x: a },
                 12 => Call { op: "grant".into(), b: 0, x: a },
-                _ => Call { op: "tick".into(), b: 0, x: rng.range(1, 3) },
+                _ => Call { op: "tick".into(), b: 0, x: if long { *rng.pick(&[1i64, DAY, 30 * DAY, d0]) } else { rng.range(1, 3) } },
             };
             exec_and_log(&mut w, &c, k == 0, &mut sink);
         }
@@ -534,6 +595,7 @@ fn main() {
     let code = match mode.as_str() {
         "replay" => replay(&args),
         "random" => random(&args),
+        "delays" => delays(&args),
         _ => 2,
     };
     std::process::exit(code);
